@@ -81,7 +81,8 @@ def do_run(names, tier="quick"):
             continue
         try:
             t0 = time.time()
-            rc, out = sh("./check %s --tier %s" % (prop, tier), cwd=ROOT)
+            env = dict(os.environ, VERIF_EVIDENCE_DIR=os.path.join(ROOT, "out", "evidence_seeded"))
+            rc, out = sh("./check %s --tier %s" % (prop, tier), cwd=ROOT, env=env)
             lines = [l for l in out.splitlines() if l.startswith(("VIOLATION", "UNDECIDED", "CHECKER", "KNOWN"))]
             results[name] = {"prop": prop, "rc": rc, "s": round(time.time() - t0, 1), "lines": lines[:6]}
             print(name, prop, "rc=%d" % rc, "%.0fs" % (time.time() - t0), "|", (lines[0][:230] if lines else out.strip().splitlines()[-1][:200]))
